@@ -48,7 +48,7 @@ MSG = [b"Subject: i%d\r\n\r\nb%d\r\n" % (i, i) for i in range(4)]
 
 # (name, A command, B command)  -- B's `{s}` is a symbolic sequence number
 PAIRS = [
-    ("expunge_store", ("inbox", "EXPUNGE"), ("inbox", "STORE {s} +FLAGS (\\Flagged)")),
+    ("expunge_store", ("inbox", "EXPUNGE"), ("inbox", "STORE {s} +FLAGS (\\Answered)")),
     ("expunge_fetch", ("inbox", "EXPUNGE"), ("inbox", "FETCH {s} (UID FLAGS)")),
     ("expunge_search", ("inbox", "EXPUNGE"), ("inbox", "SEARCH FLAGGED")),
     ("expunge_uidfetch", ("inbox", "EXPUNGE"), ("inbox", "UID FETCH 1:* (FLAGS)")),
@@ -177,17 +177,88 @@ def _pair_step(d0, d1, d2, d3, d4, d5, d6, d7, s):
     check(out == ab or out == ba, f"C10/{tag}/outcome_equals_no_sequential_order", schedule=[int(x) for x in decisions], s=s, concurrent=repr(out)[:900], ab=repr(ab)[:900], ba=repr(ba)[:900])
 
 
+# ---------------------------------------------------------------------------
+# admission relation: would_conflict over several executing commands
+
+CKINDS = ["noop", "select", "status", "examine", "search", "fetch", "store", "copy", "append", "check", "close", "expunge", "move", "delete", "rename"]
+
+
+def _fake_cmd(kind, bits, peek):
+    from asimap.parse import IMAPClientCommand
+
+    c = IMAPClientCommand("x " + kind.upper())
+    c.command = kind
+    c.msg_set_as_set = {i + 1 for i, b in enumerate(bits) if b}
+    c.fetch_peek = peek
+    return c
+
+
+def conflict_step(kn: int, k1: int, k2: int, n1: bool, n2: bool, n3: bool, a1: bool, a2: bool, a3: bool, b1: bool, b2: bool, b3: bool, pn: bool, pa: bool, pb: bool, dels: bool, swap: bool) -> bool:
+    """
+    pre: 0 <= kn < 15 and 0 <= k1 < 15 and 0 <= k2 < 15
+    pre: core.PARAMS.get("kn") is None or kn == core.PARAMS["kn"]
+    post: _
+    """
+    return held(_conflict_step, locals())
+
+
+def _conflict_step(kn, k1, k2, n1, n2, n3, a1, a2, a3, b1, b2, b3, pn, pa, pb, dels, swap):
+    """
+    The admission decision against several executing commands is the disjunction of the pairwise
+    decisions (a command conflicts iff it conflicts with at least one executing command), whatever
+    the order of the executing list.
+    """
+    import asimap.mbox as M
+
+    kn, k1, k2 = core.pick(kn, 0, 15), core.pick(k1, 0, 15), core.pick(k2, 0, 15)
+    srv = env.new_world()
+    mb = env.make_mailbox(srv, "inbox", [1, 2, 3], [1, 2, 3], {"Seen": {1, 2, 3}, "Deleted": {2} if dels else set()})
+    new = _fake_cmd(CKINDS[kn], (n1, n2, n3), pn)
+    e1 = _fake_cmd(CKINDS[k1], (a1, a2, a3), pa)
+    e2 = _fake_cmd(CKINDS[k2], (b1, b2, b3), pb)
+
+    def wc(execs):
+        mb.executing_tasks = list(execs)
+        try:
+            return mb.would_conflict(new)
+        except RuntimeError:
+            return "unsupported"
+
+    both = wc([e2, e1] if swap else [e1, e2])
+    one = wc([e1])
+    two = wc([e2])
+    reached()
+    if "unsupported" in (both, one, two):
+        check(both == one == two, "C10/conflict_step/unsupported_command_handling_depends_on_list", new=CKINDS[kn])
+        return
+    check(both == (one or two), "C10/conflict_step/admission_not_the_disjunction_of_pairwise_conflicts", new=CKINDS[kn], executing=[CKINDS[k1], CKINDS[k2]], sets=[sorted(new.msg_set_as_set), sorted(e1.msg_set_as_set), sorted(e2.msg_set_as_set)], both=both, one=one, two=two, swap=swap)
+    check(wc([]) is False, "C10/conflict_step/conflict_with_nothing_executing", new=CKINDS[kn])
+    # a command that changes the mailbox as a whole never runs beside anything, and nothing runs beside it
+    if CKINDS[k1] in ("append", "check", "close", "expunge", "move", "delete", "rename"):
+        check(one is True, "C10/conflict_step/command_admitted_beside_exclusive_command", new=CKINDS[kn], executing=CKINDS[k1])
+    if CKINDS[kn] in ("append", "check", "delete", "move", "rename"):
+        check(one is True, "C10/conflict_step/exclusive_command_admitted_beside_running_command", new=CKINDS[kn], executing=CKINDS[k1])
+    # STORE never runs beside a command that reads or writes the same messages, nor beside a SEARCH
+    if CKINDS[kn] == "store" and CKINDS[k1] in ("store", "fetch", "copy"):
+        check(one == bool(new.msg_set_as_set & e1.msg_set_as_set), "C10/conflict_step/store_overlap_rule_wrong", executing=CKINDS[k1], one=one)
+    if CKINDS[kn] == "store" and CKINDS[k1] == "search":
+        check(one is True, "C10/conflict_step/store_admitted_beside_search")
+
+
 def jobs(tier):
     q = tier == "quick"
     T = 400 if q else 2400
     D = 4 if q else 6
     js = []
+    for kn in range(len(CKINDS)):
+        js.append({"name": f"conflict_step[{CKINDS[kn]}]", "fn": "conflict_step", "params": {"kn": kn}, "timeout": T, "per_path": 60})
     for i, p in enumerate(PAIRS):
         js.append({"name": f"pair_step[{p[0]},D={D}]", "fn": "pair_step", "params": {"pair": i, "D": D}, "timeout": T, "per_path": 120, "unblock": ("sqlite3.connect", "sqlite3.connect/handle")})
     return js
 
 
 SAMPLES = [
+    {"fn": "conflict_step", "params": {"kn": 6}, "args": {"kn": 6, "k1": 5, "k2": 7, "n1": True, "n2": False, "n3": False, "a1": False, "a2": True, "a3": False, "b1": True, "b2": False, "b3": False, "pn": True, "pa": False, "pb": True, "dels": False, "swap": False}},
     {"fn": "pair_step", "params": {"pair": 0, "D": 4}, "args": {"d0": 0, "d1": 0, "d2": 0, "d3": 0, "d4": 0, "d5": 0, "d6": 0, "d7": 0, "s": 1}},
     {"fn": "pair_step", "params": {"pair": 7, "D": 4}, "args": {"d0": 1, "d1": 0, "d2": 1, "d3": 0, "d4": 0, "d5": 0, "d6": 0, "d7": 0, "s": 1}},
     {"fn": "pair_step", "params": {"pair": 6, "D": 4}, "args": {"d0": 0, "d1": 1, "d2": 0, "d3": 2, "d4": 0, "d5": 0, "d6": 0, "d7": 0, "s": 1}},
